@@ -33,6 +33,7 @@ type Server struct {
 	mu        sync.Mutex
 	listeners []net.Listener
 	conns     map[net.Conn]bool
+	closed    bool
 }
 
 func (s *Server) ListenAndServe() error {
@@ -62,6 +63,10 @@ func (s *Server) Serve(l net.Listener) error {
 	defer l.Close()
 
 	s.mu.Lock()
+	if s.closed {
+		// Close or Shutdown came first: do not accept
+		l.Close()
+	}
 	s.listeners = append(s.listeners, l)
 	s.mu.Unlock()
 
@@ -101,6 +106,7 @@ func (s *Server) closeListeners() error {
 		l.Close()
 	}
 	s.listeners = nil
+	s.closed = true
 	s.mu.Unlock()
 	return nil
 }
